@@ -599,8 +599,8 @@ func init() {
 			{Name: "plain", N: q(240, 3000), Run: func(c *fw.Case) { c13Case(c, true) }},
 			{Name: "raceA", Race: true, NoHandler: true, N: q(120, 1500), GoMaxProcs: gmp, Run: func(c *fw.Case) { c13Case(c, false) }},
 			{Name: "raceB", Race: true, N: q(120, 1500), GoMaxProcs: gmp, Run: func(c *fw.Case) { c13Case(c, true) }},
-			{Name: "storm", N: q(160, 1600), Run: c13Storm},
-			{Name: "storm-race", Race: true, N: q(32, 480), Run: c13Storm},
+			{Name: "storm", N: q(160, 800), Run: c13Storm},
+			{Name: "storm-race", Race: true, N: q(32, 200), Run: c13Storm},
 		},
 	})
 }
